@@ -531,6 +531,10 @@ func (m *ConnectMessage) decodeMessage(src []byte) (int, error) {
 		return total, fmt.Errorf("connect/decodeMessage: Protocol violation: If the Will Flag (%t) is set to 0 the Will QoS (%d) and Will Retain (%t) fields MUST be set to zero", m.WillFlag(), m.WillQos(), m.WillRetain())
 	}
 
+	if m.PasswordFlag() && !m.UsernameFlag() {
+		return total, fmt.Errorf("connect/decodeMessage: Protocol violation: If the User Name Flag is set to 0, the Password Flag MUST be set to 0")
+	}
+
 	if len(src[total:]) < 2 {
 		return 0, fmt.Errorf("connect/decodeMessage: Insufficient buffer size. Expecting %d, got %d", 2, len(src[total:]))
 	}
@@ -585,6 +589,11 @@ func (m *ConnectMessage) decodeMessage(src []byte) (int, error) {
 		if err != nil {
 			return total, err
 		}
+	}
+
+	// The flags say which fields the payload has; nothing may follow them.
+	if len(src[total:]) > 0 {
+		return total, fmt.Errorf("connect/decodeMessage: %d surplus bytes behind the last field", len(src[total:]))
 	}
 
 	return total, nil
